@@ -50,12 +50,13 @@ Proof.
   - intros u. rewrite HT. destruct (Nat.eqb_spec u t) as [->|Hne]; cbn [refs clk x'].
     + intros _. eapply cle_trans; [apply (J2 s I t Hr) | apply cle_tick].
     + apply (J2 s I u).
-  - intros u. rewrite get_setc. destruct (Nat.eqb_spec u t) as [->|Hne].
-    + right. exists t. rewrite HT, Nat.eqb_refl. cbn [refs clk x']. split; [lia|lia].
-    + destruct (J3 s I u) as [H3|[h [Hh H3]]]; [left; exact H3|].
-      right. exists h. rewrite HT. destruct (Nat.eqb_spec h t) as [->|Hne']; cbn [refs clk x'].
-      * split; [lia|]. rewrite get_tick. destruct (Nat.eqb_spec u t); [lia|exact H3].
-      * auto.
+  - intros _ u. rewrite get_setc. destruct (Nat.eqb_spec u t) as [->|Hne].
+    + right. left. exists t. rewrite HT, Nat.eqb_refl. cbn [refs clk x']. split; [lia|lia].
+    + destruct (J3 s I Hl u) as [H3|[[h [Hh H3]]|[h [Hm H3]]]]; [left; exact H3| |].
+      * right. left. exists h. rewrite HT. destruct (Nat.eqb_spec h t) as [->|Hne']; cbn [refs clk x'].
+        -- split; [lia|]. rewrite get_tick. destruct (Nat.eqb_spec u t); [lia|exact H3].
+        -- auto.
+      * exfalso. exact (mustfree_no_refs s h t I Hm Hr).
   - intros u. rewrite HT. destruct (Nat.eqb_spec u t) as [->|Hne]; cbn [mustfree clk pend x'].
     + intros Hm. destruct (J4 s I t Hm) as (_ & H0 & _). unfold T, getth in Hr. pose proof (total_ge (ths s) t). lia.
     + intros Hm. destruct (J4 s I u Hm) as (_ & H0 & _). unfold T, getth in Hr. pose proof (total_ge (ths s) t). lia.
